@@ -583,6 +583,11 @@ def build_unit(repo, verif, unit):
         parts.append("\n")
     fns = []
     for item in unit["items"]:
+        if item.get("kind") == "prelude":
+            parts.append("// ---- prelude %s\n" % item["file"])
+            parts.append(open(os.path.join(verif, "specs", "prelude", item["file"])).read())
+            parts.append("\n")
+            continue
         if item.get("kind") == "model":
             parts.append("// ---- model %s\n" % item["file"])
             parts.append(open(os.path.join(verif, "specs", "model", item["file"])).read())
